@@ -171,6 +171,8 @@ def tie(ctx, model_ok=True):
             res['failing'].append({'signature': sig, 'what': what, 'case': {'specs': [], 'string': s}})
     for model, tyspec, v in dumpcase.gen_cases(rnd, n_models, 8, toggles='commuting'):
         classes = model.registered_classes()
+        if rnd.random() < 0.25:
+            dumpcase.share_in_value(rnd, v)         # the same object twice: dumped as anchor + alias
         if ambiguous(model, tyspec, v):
             skipped += 1
             continue
